@@ -1,14 +1,20 @@
 // C04 — recursive removal never touches anything outside the tree; symbolic links are removed as links.
 //
-// Bounded-exhaustive enumeration, executed on the real code of utils/filesystem: every tree shape of <= N entries
-// (files, empty and non-empty directories, one entry optionally read-only) x every decoration with <= L symbolic links
-// (to a file / directory inside the tree, to an ancestor, to the directory holding tree and outside region, to a file /
-// non-empty directory / empty directory / link outside, to nothing; absolute and relative link texts) x every removal
-// entry point (Rm, RemoveWithContext, RemoveWithContextAndExclusionPatterns, CleanDir, CleanDirWithContext,
-// CleanDirWithContextAndExclusionPatterns, GarbageCollect, GarbageCollectWithContext with an age threshold below and
-// above the age of the files, MoveBetweenFS whose second half is a removal) x {no pattern, the pattern that is the
-// name of one entry}. The real VFS runs over a vfsx trace layer over the real backend (ExtendedOsFs in a sandbox under
-// /dev/shm/verif-c04-*, afero MemMapFs for the link-free shapes).
+// Bounded-exhaustive enumeration, executed on the real code of utils/filesystem: every tree shape within a bound on the
+// number of entries (files, empty and non-empty directories, one entry optionally read-only) x every decoration with
+// <= 2 symbolic links (to a file / directory inside the tree, to an ancestor, to the directory holding tree and outside
+// region, to a file / non-empty directory / empty directory / link outside, to nothing; every location, every target;
+// absolute and relative link texts) x every removal entry point (Rm, RemoveWithContext,
+// RemoveWithContextAndExclusionPatterns, CleanDir, CleanDirWithContext, CleanDirWithContextAndExclusionPatterns,
+// GarbageCollect and GarbageCollectWithContext with an age threshold below and above the age of the entries,
+// MoveBetweenFS whose second half is a removal) x {no pattern, the pattern that is the name of one entry or link}.
+// The bound depends on the class of decoration (see theBound). The real VFS runs over a vfsx trace layer over the real
+// backend (ExtendedOsFs in a sandbox under /dev/shm/verif-c04-*, afero MemMapFs for the link-free shapes).
+//
+// Signatures: <clause>:op=<rm|gc>:<class>. "rm" stands for Rm / Remove… / CleanDir… / MoveBetweenFS (one mutually
+// recursive routine), "gc" for garbage collection (its own recursion); the class is computed from the case: the kind of
+// link the offending call crossed last, the kind of link that was left behind, the depth of the protected entry and
+// whether a call was made on its own path.
 //
 // Oracle (per case), and the reading taken of the statement where it is ambiguous (always the weakest):
 //
@@ -148,7 +154,7 @@ type bound struct {
 // loop make the number of paths exponential in that depth (2^40 calls): such pairs are not run at all.
 func theBound() bound {
 	if ev.Thorough() {
-		return bound{N0: 5, N1: 5, N1Full: 4, NL: 4, NLFull: 2, N2: 4, N2L: 2}
+		return bound{N0: 5, N1: 5, N1Full: 4, NL: 3, NLFull: 2, N2: 4, N2L: 2}
 	}
 	return bound{N0: 4, N1: 4, N1Full: 2, NL: 2, NLFull: -1, N2: 2, N2L: 1}
 }
@@ -414,14 +420,28 @@ func (r *runner) run(c *Case) (res caseResult) {
 		if rel == op.Path {
 			continue
 		}
+		// resolve the components above the last one the way the kernel does, remembering the last link of the tree crossed
 		parts := strings.Split(rel, "/")
 		last := -1
-		for k := 1; k < len(parts); k++ { // proper prefixes
-			if j, ok := linkAt[strings.Join(parts[:k], "/")]; ok {
+		cur := ""
+		for k, comp := range parts {
+			if cur == "" {
+				cur = comp
+			} else {
+				cur += "/" + comp
+			}
+			if k == len(parts)-1 {
+				break
+			}
+			if j, ok := linkAt[cur]; ok {
 				last = j
+				cur = c.linkTargetRel(j)
+			}
+			if cur == "O/u" { // the link that lives outside
+				cur = "O/j"
 			}
 		}
-		if _, ok := linkAt[rel]; ok || last >= 0 {
+		if _, ok := linkAt[cur]; ok || last >= 0 {
 			res.LinkReached = true
 		}
 		if !op.Mutates || op.Err != nil {
@@ -574,7 +594,7 @@ func (r *runner) run(c *Case) (res caseResult) {
 		if strings.Count(p, "/") > 1 {
 			depthClass = "nested"
 		}
-		how := "through-link" // removed by a call on another path of the same entry
+		how := "indirect" // no successful mutating call on the entry's own path: it went through a link, or together with a directory above it
 		if directlyMutated[p] {
 			how = "direct"
 		}
